@@ -316,6 +316,61 @@ def r10_map_or(text):
     return text, k
 
 
+def r10_map_or_else(text):
+    """R10m (always applied): `E.map_or_else(D, F)` -> `(match E { Some(p) => F(p), None => D() })` where D is `|| expr` or a function
+    path and F is `|p| expr` or a function path (Option::map_or_else has no Verus specification; the match is its definition)."""
+    k = 0
+    pos = 0
+    while True:
+        m = mask(text)
+        mm = re.compile(r"\.\s*map_or_else\(").search(m, pos)
+        if not mm:
+            break
+        op = mm.end() - 1
+        cp = match_close(m, op)
+        inner = text[op + 1:cp]
+        mi = mask(inner)
+        depth, cut = 0, -1
+        for i, ch in enumerate(mi):
+            if ch in "([{":
+                depth += 1
+            elif ch in ")]}":
+                depth -= 1
+            elif ch == "," and depth == 0:
+                cut = i
+                break
+        if cut < 0:
+            pos = mm.end()
+            continue
+        a, b = inner[:cut].strip(), inner[cut + 1:].strip().rstrip(",").strip()
+        am = re.match(r"^\|\|\s*(.*)$", a, re.S)
+        if am:
+            none_e = am.group(1).strip()
+        elif re.match(r"^[A-Za-z_][\w:]*$", a):
+            none_e = a + "()"
+        else:
+            pos = mm.end()
+            continue
+        bm = re.match(r"^\|\s*(&?\s*\w+)\s*\|\s*(.*)$", b, re.S)
+        if bm and "|" not in mask(bm.group(2)).replace("||", ""):
+            some_p, some_e = bm.group(1).replace("&", "").strip(), bm.group(2).strip()
+        elif re.match(r"^[A-Za-z_][\w:]*$", b):
+            some_p, some_e = "vx_p", b + "(vx_p)"
+        else:
+            pos = mm.end()
+            continue
+        if "|" in mask(none_e).replace("||", ""):
+            pos = mm.end()
+            continue
+        s0 = _receiver_start(m, mm.start())
+        recv = text[s0:mm.start()]
+        rep = "(match %s { Some(%s) => %s, None => %s })" % (recv, some_p, some_e, none_e)
+        text = text[:s0] + rep + text[cp + 1:]
+        pos = s0 + len(rep)
+        k += 1
+    return text, k
+
+
 def r3_await(text, arg="Tracked(tr)"):
     return sub(text, r"\.\s*await\b", ".vx_await(%s)" % arg, count=-1, name="R3")
 
@@ -845,6 +900,9 @@ def apply_rules(text, rules, log, fn):
     text, kdf = sub(text, r"\.\.\s*(?:std::default::|core::default::)?Default::default\(\)", "..Self::default()", count=-1, name="R10s")
     if kdf:
         log["R10s-struct-update-default"] = log.get("R10s-struct-update-default", 0) + kdf
+    text, k10me = r10_map_or_else(text)
+    if k10me:
+        log["R10m-map_or_else"] = log.get("R10m-map_or_else", 0) + k10me
     text, k10m = r10_map_or(text)
     if k10m:
         log["R10m-map_or"] = log.get("R10m-map_or", 0) + k10m
